@@ -23,31 +23,31 @@ impl Resolver<'_> {
 
         let (kind, input) = match internal_name.as_str() {
             "select" => {
-                let [assigns, tbl] = unpack::<2>(func.args);
+                let [assigns, tbl] = unpack::<2>(func.args)?;
 
                 let assigns = Box::new(self.coerce_into_tuple(assigns)?);
                 (TransformKind::Select { assigns }, tbl)
             }
             "filter" => {
-                let [filter, tbl] = unpack::<2>(func.args);
+                let [filter, tbl] = unpack::<2>(func.args)?;
 
                 let filter = Box::new(filter);
                 (TransformKind::Filter { filter }, tbl)
             }
             "derive" => {
-                let [assigns, tbl] = unpack::<2>(func.args);
+                let [assigns, tbl] = unpack::<2>(func.args)?;
 
                 let assigns = Box::new(self.coerce_into_tuple(assigns)?);
                 (TransformKind::Derive { assigns }, tbl)
             }
             "aggregate" => {
-                let [assigns, tbl] = unpack::<2>(func.args);
+                let [assigns, tbl] = unpack::<2>(func.args)?;
 
                 let assigns = Box::new(self.coerce_into_tuple(assigns)?);
                 (TransformKind::Aggregate { assigns }, tbl)
             }
             "sort" => {
-                let [by, tbl] = unpack::<2>(func.args);
+                let [by, tbl] = unpack::<2>(func.args)?;
 
                 let by = self
                     .coerce_into_tuple(by)?
@@ -69,7 +69,7 @@ impl Resolver<'_> {
                 (TransformKind::Sort { by }, tbl)
             }
             "take" => {
-                let [expr, tbl] = unpack::<2>(func.args);
+                let [expr, tbl] = unpack::<2>(func.args)?;
 
                 let range = if let ExprKind::Literal(Literal::Integer(n)) = expr.kind {
                     range_from_ints(None, Some(n))
@@ -95,7 +95,7 @@ impl Resolver<'_> {
                 (TransformKind::Take { range }, tbl)
             }
             "join" => {
-                let [side, with, filter, tbl] = unpack::<4>(func.args);
+                let [side, with, filter, tbl] = unpack::<4>(func.args)?;
 
                 let side = {
                     let span = side.span;
@@ -144,7 +144,7 @@ impl Resolver<'_> {
                 (TransformKind::Join { side, with, filter }, tbl)
             }
             "group" => {
-                let [by, pipeline, tbl] = unpack::<3>(func.args);
+                let [by, pipeline, tbl] = unpack::<3>(func.args)?;
 
                 let by = Box::new(self.coerce_into_tuple(by)?);
 
@@ -174,7 +174,7 @@ impl Resolver<'_> {
                 (TransformKind::Group { by, pipeline }, tbl)
             }
             "window" => {
-                let [rows, range, expanding, rolling, pipeline, tbl] = unpack::<6>(func.args);
+                let [rows, range, expanding, rolling, pipeline, tbl] = unpack::<6>(func.args)?;
 
                 let expanding = {
                     let as_bool = expanding.kind.as_literal().and_then(|l| l.as_boolean());
@@ -254,12 +254,12 @@ impl Resolver<'_> {
                 (transform_kind, tbl)
             }
             "append" => {
-                let [bottom, top] = unpack::<2>(func.args);
+                let [bottom, top] = unpack::<2>(func.args)?;
 
                 (TransformKind::Append(Box::new(bottom)), top)
             }
             "loop" => {
-                let [pipeline, tbl] = unpack::<2>(func.args);
+                let [pipeline, tbl] = unpack::<2>(func.args)?;
 
                 let pipeline = self.fold_by_simulating_eval(pipeline, &tbl)?;
 
@@ -269,7 +269,7 @@ impl Resolver<'_> {
             "in" => {
                 // yes, this is not a transform, but this is the most appropriate place for it
 
-                let [pattern, value] = unpack::<2>(func.args);
+                let [pattern, value] = unpack::<2>(func.args)?;
 
                 if pattern.ty.as_ref().is_some_and(|x| x.kind.is_array()) {
                     return Ok(Expr::new(ExprKind::RqOperator {
@@ -306,7 +306,7 @@ impl Resolver<'_> {
             "tuple_every" => {
                 // yes, this is not a transform, but this is the most appropriate place for it
 
-                let [list] = unpack::<1>(func.args);
+                let [list] = unpack::<1>(func.args)?;
                 let list = expect_tuple(list, "std.tuple_every")?;
 
                 let mut res = None;
@@ -322,7 +322,7 @@ impl Resolver<'_> {
             "tuple_map" => {
                 // yes, this is not a transform, but this is the most appropriate place for it
 
-                let [func, list] = unpack::<2>(func.args);
+                let [func, list] = unpack::<2>(func.args)?;
                 let ExprKind::Tuple(list_items) = list.kind else {
                     return Err(Error::new(Reason::Expected {
                         who: Some("std.tuple_map".to_string()),
@@ -350,7 +350,7 @@ impl Resolver<'_> {
             "tuple_zip" => {
                 // yes, this is not a transform, but this is the most appropriate place for it
 
-                let [a, b] = unpack::<2>(func.args);
+                let [a, b] = unpack::<2>(func.args)?;
                 let a = expect_tuple(a, "std.tuple_zip")?;
                 let b = expect_tuple(b, "std.tuple_zip")?;
 
@@ -365,7 +365,7 @@ impl Resolver<'_> {
             "_eq" => {
                 // yes, this is not a transform, but this is the most appropriate place for it
 
-                let [list] = unpack::<1>(func.args);
+                let [list] = unpack::<1>(func.args)?;
                 let span = list.span;
                 let list = expect_tuple(list, "std._eq")?;
                 let Ok([a, b]) = <[Expr; 2]>::try_from(list) else {
@@ -379,7 +379,7 @@ impl Resolver<'_> {
             "from_text" => {
                 // yes, this is not a transform, but this is the most appropriate place for it
 
-                let [format, text_expr] = unpack::<2>(func.args);
+                let [format, text_expr] = unpack::<2>(func.args)?;
 
                 let text = match text_expr.kind {
                     ExprKind::Literal(Literal::String(text)) => text,
@@ -1059,8 +1059,14 @@ fn expect_tuple(expr: Expr, who: &str) -> Result<Vec<Expr>> {
 
 /// Expects closure's args to be resolved.
 /// Note that named args are before positional args, in order of declaration.
-fn unpack<const P: usize>(func_args: Vec<Expr>) -> [Expr; P] {
-    func_args.try_into().expect("bad special function cast")
+fn unpack<const P: usize>(func_args: Vec<Expr>) -> Result<[Expr; P]> {
+    // (a function written with `internal` in user code can have any number of parameters)
+    func_args.try_into().map_err(|args: Vec<Expr>| {
+        Error::new_simple(format!(
+            "this internal function takes {P} arguments, but {} were given",
+            args.len()
+        ))
+    })
 }
 
 mod from_text {
